@@ -236,12 +236,21 @@ func runC11(ctx *core.Ctx, idx int) *core.Result {
 		}
 		useCls := "none"
 		if form != "absent" {
-			switch r.Intn(3) {
+			switch r.Intn(6) {
 			case 0:
 				fmt.Fprintf(&body, "\t%s.Unrelated()\n", name)
 				useCls = "elsewhere"
 			case 1:
 				useCls = "only-in-site"
+			case 2:
+				fmt.Fprintf(&body, "\tuse(%s.DefaultThing.Member)\n", name)
+				useCls = "elsewhere-chained-selector"
+			case 3:
+				fmt.Fprintf(&body, "\t_ = %s.NewThing(nil).String()\n", name)
+				useCls = "elsewhere-method-on-call"
+			case 4:
+				fmt.Fprintf(&body, "\tvar vt %s.Type\n\tuse(vt, []*%s.Other{}, func(a %s.Arg) {})\n", name, name, name)
+				useCls = "elsewhere-in-types"
 			}
 		}
 		// keep the other named imports "used"
